@@ -18,11 +18,10 @@ _SNAP = None
 
 
 def _tmp_root():
-    for cand in (os.environ.get("NSLMC_TMP"), "/dev/shm", None):
-        if cand is None:
-            return tempfile.gettempdir()
+    for cand in (os.environ.get("NSLMC_TMP"), "/dev/shm"):
         if cand and os.path.isdir(cand) and os.access(cand, os.W_OK):
             return cand
+    return tempfile.gettempdir()
 
 
 def make_snapshot():
@@ -48,10 +47,7 @@ def activate(root=None, quiet_tables=True):
     global _SNAP
     owned = root is None
     if root is None:
-        root = os.environ.get("NSLMC_SNAPSHOT") or None
-        owned = root is None
-        if root is None:
-            root = make_snapshot()
+        root = make_snapshot()
     _SNAP = root
     strip_editable_finder()
     for m in [m for m in sys.modules if m == "nsl" or m.startswith("nsl.")]:
